@@ -9,6 +9,9 @@ SPEC = {
     "theorems": {"Properties.C11": ["C11_perm_invariant", "C11_stable_sort_correct", "C11_exit_perm_invariant",
                                     "C11_exit_iff_reaches", "C11_monitors_sound", "C11_is_equal_symmetric_partial",
                                     "C11_is_equal_symmetric_refuted", "C11_perm_invariant_unconditional_refuted",
+                                    "C11_is_equal_reads_position", "C11_position_regression",
+                                    "C11_protocol_delivers_exactly_once", "C11_protocol_no_deadlock",
+                                    "C11_protocol_terminates", "C11_runs_agree", "C11_H2_from_job_invariants",
                                     "C11_nonvacuous"]},
     "harness_args": lambda tier: ["C11", "--n", 300, "--perms", 14, "--scen", 24, "--bin", 5] if tier == "quick"
                                  else ["C11", "--n", 1800, "--perms", 30, "--scen", 160, "--bin", 40, "--race", 1],
